@@ -39,7 +39,7 @@ def locate(prog, errs):
 
 
 class Case:
-    __slots__ = ("prog", "placements", "src", "covered", "oracle_ok", "label", "desc")
+    __slots__ = ("prog", "placements", "src", "covered", "oracle_ok", "label", "desc", "nbase")
 
 
 def slots_of(prog):
@@ -225,10 +225,10 @@ def run(ctx):
     # ---------------- programs
     bld = G.Builder(rng)
     progs = []
-    n_prog = 2500 if thorough else 260
+    n_prog = 2500 if thorough else 400
     for i in range(n_prog):
         progs.append(("gen-%d" % i, bld.program()))
-    max_shape = 6 if thorough else 4
+    max_shape = 6 if thorough else 5
     shape_progs = []
     for n in range(1, max_shape + 1):
         for k, sh in enumerate(G.shapes(n)):
@@ -262,8 +262,66 @@ def run(ctx):
         base[id(p)] = (loc, dg, sorted(set(r for r, _ in loc)))
         usable.append((label, p))
 
-    # ---------------- cases
+    # ---------------- cases (processed in chunks: generate, run both sides, compare, forget)
     cases = []
+    stat = {"n": 0, "agree": 0, "oracle_agree": 0, "oracle_checked": 0, "nontrivial": 0, "leak_detectors": 0}
+    forms = {}
+    distinct = set()
+    samples = []
+
+    def flush():
+        if not cases:
+            return
+        ireps = V.run_batch(IMPL, [c.src.encode().hex() for c, _ in cases], hang_s=10)
+        mreps = V.run_batch([model], ["vcl " + c.covered[0] for c, _ in cases], hang_s=30)
+        for (c, exp), ir, mr in zip(cases, ireps, mreps):
+            sexp, linemap, pathmap = c.covered
+            errs = parse_reply(ir)
+            replay = {"label": c.label, "directives": c.desc, "source": c.src, "impl": ir, "model": mr}
+            size = len(c.src)
+            stat["n"] += 1
+            if errs is None:
+                viol.append((size, "linting a program with ignore comments failed: %s (%s)" % (ir, c.desc), replay, None))
+                continue
+            got = sorted((r, linemap.get(ln, -ln)) for r, ln in errs)
+            if mr is None or not mr.startswith("ok"):
+                viol.append((size, "model driver failed: %s" % mr, replay, None))
+                continue
+            mod = []
+            for it in mr.split()[1:]:
+                pth, _, rh = it.partition(":")
+                mod.append((bytes.fromhex(rh).decode(), pathmap[pth]))
+            mod.sort()
+            for d in c.placements:
+                key = d["form"] + ("+rules" if d["rules"] else "") + " " + d["marker"]
+                forms[key] = forms.get(key, 0) + 1
+            distinct.add(hash(c.src))
+            if got != mod:
+                viol.append((size, "linter and Model/Ignore.v disagree on the reported diagnostics [%s]: only linter %s, only model %s"
+                             % (c.desc, sorted(set(got) - set(mod))[:6], sorted(set(mod) - set(got))[:6]), replay, None))
+            else:
+                stat["agree"] += 1
+            if exp is not None:
+                stat["oracle_checked"] += 1
+                if got != exp:
+                    extra = [x for x in got if x not in exp]
+                    missing = [x for x in exp if x not in got]
+                    what = ("ignore comment does not suppress exactly what it covers [%s]: " % c.desc
+                            + ("still reported inside the covered statements %s; " % extra[:6] if extra else "")
+                            + ("suppressed outside the covered statements / unnamed rules %s" % missing[:6] if missing else ""))
+                    viol.append((size, what, dict(replay, expected=exp, got=got), None))
+                else:
+                    stat["oracle_agree"] += 1
+                    if len(exp) < c.nbase:
+                        stat["nontrivial"] += 1
+                        if exp:
+                            stat["leak_detectors"] += 1
+        if len(samples) < 3 and len(cases) > 1:
+            samples.append({"directives": cases[len(cases) // 2][0].desc, "source": cases[len(cases) // 2][0].src[:600]})
+        if len(viol) > 400:
+            viol.sort(key=lambda v: v[0])
+            del viol[200:]
+        del cases[:]
 
     def add_case(label, p, ds):
         p.clear()
@@ -273,15 +331,17 @@ def run(ctx):
         if not all(trailing_ok(n) for n in p.nodes() if n.kind == "simple"):
             return
         c = Case()
-        c.prog, c.placements, c.label = p, ds, label
+        c.prog, c.placements, c.label = None, [{"form": d["form"], "rules": d["rules"], "marker": d["marker"]} for d in ds], label
         c.src = p.render()
         c.desc = "; ".join(describe(d) for d in ds)
         loc, dg, fired = base[id(p)]
-        c.covered = (p.sexp(dg), {n.line: n.id for n in p.nodes() if n.kind != "block" and n.line is not None}, p.model_paths())
+        c.nbase = len(loc)
+        c.covered = (p.sexp(dg), {n.line: n.id for n in p.nodes() if n.kind != "block" and n.line is not None},
+                     {k: v.id for k, v in p.model_paths().items()})
         c.oracle_ok = oracle_applicable(p, ds)
         cases.append((c, expected_by_oracle(p, loc, ds) if c.oracle_ok else None))
-        # freeze what depends on the mutable tree
-        c.covered = (c.covered[0], c.covered[1], {k: v.id for k, v in c.covered[2].items()})
+        if len(cases) >= 20000:
+            flush()
 
     per_prog = 40
     for label, p in usable:
@@ -327,56 +387,7 @@ def run(ctx):
                 add_case(label, p, [{"form": "range", "rules": rules, "marker": mk, "owner": owner, "lst": lst, "i": i, "j": j,
                                      "placements": pls}])
                 exhaustive_n += 1
-
-    # ---------------- run both sides
-    ireps = V.run_batch(IMPL, [c.src.encode().hex() for c, _ in cases], hang_s=10)
-    mreps = V.run_batch([model], ["vcl " + c.covered[0] for c, _ in cases], hang_s=30)
-    agree = oracle_agree = oracle_checked = nontrivial = leak_detectors = 0
-    forms = {}
-    distinct = set()
-    for (c, exp), ir, mr in zip(cases, ireps, mreps):
-        sexp, linemap, pathmap = c.covered
-        errs = parse_reply(ir)
-        replay = {"label": c.label, "directives": c.desc, "source": c.src, "impl": ir, "model": mr}
-        size = len(c.src)
-        if errs is None:
-            viol.append((size, "linting a program with ignore comments failed: %s (%s)" % (ir, c.desc), replay, None))
-            continue
-        got = sorted((r, linemap.get(ln, -ln)) for r, ln in errs)
-        if mr is None or not mr.startswith("ok"):
-            viol.append((size, "model driver failed: %s" % mr, replay, None))
-            continue
-        mod = []
-        for it in mr.split()[1:]:
-            pth, _, rh = it.partition(":")
-            mod.append((bytes.fromhex(rh).decode(), pathmap[pth]))
-        mod.sort()
-        for d in c.placements:
-            key = d["form"] + ("+rules" if d["rules"] else "") + " " + d["marker"]
-            forms[key] = forms.get(key, 0) + 1
-        distinct.add(c.src)
-        if got != mod:
-            viol.append((size, "linter and Model/Ignore.v disagree on the reported diagnostics [%s]: only linter %s, only model %s"
-                         % (c.desc, sorted(set(got) - set(mod))[:6], sorted(set(mod) - set(got))[:6]), replay, None))
-        else:
-            agree += 1
-        if exp is not None:
-            oracle_checked += 1
-            if got != exp:
-                extra = [x for x in got if x not in exp]
-                missing = [x for x in exp if x not in got]
-                what = ("ignore comment does not suppress exactly what it covers [%s]: " % c.desc
-                        + ("still reported inside the covered statements %s; " % extra[:6] if extra else "")
-                        + ("suppressed outside the covered statements / unnamed rules %s" % missing[:6] if missing else ""))
-                replay2 = dict(replay, expected=exp, got=got)
-                viol.append((size, what, replay2, None))
-            else:
-                oracle_agree += 1
-                base_loc = base[id(c.prog)][0]
-                if len(exp) < len(base_loc):
-                    nontrivial += 1
-                    if exp:
-                        leak_detectors += 1
+    flush()
 
     # ---------------- verdict
     viol.sort(key=lambda v: v[0])
@@ -389,18 +400,18 @@ def run(ctx):
     if not proved and not ctx.violations:
         ctx.violation("proof obligation of C12 no longer checks: " + (ctx.broken or "Props/C12.v"),
                       {"no_failing_input": True, "broken": ctx.broken,
-                       "searched": "%d programs with directives: linter, model and oracle agree on all of them" % len(cases)})
-    ctx.samples = [{"directives": c.desc, "source": c.src[:600]} for c, _ in (cases[1:2] + cases[len(cases) // 2: len(cases) // 2 + 1] + cases[-1:])]
+                       "searched": "%d programs with directives: linter, model and oracle agree on all of them" % stat["n"]})
+    ctx.samples = samples
     ctx.coverage.update({
-        "evaluations": len(cases), "distinct_nontrivial": len(distinct),
+        "evaluations": stat["n"], "distinct_nontrivial": len(distinct),
         "programs_random": len([1 for l, _ in usable if l.startswith("gen-")]),
         "programs_exhaustive_shapes": len([1 for l, _ in usable if l.startswith("shape-")]),
         "exhaustive_bound": "every statement-tree shape with <= %d statements (simple | if | if/else | if/else-if | switch 1-2 cases) "
                             "x every next-line slot, this-line slot and start/end pair, with and without a rule list" % max_shape,
         "exhaustive_single_directive_cases": exhaustive_n,
-        "model_impl_agree": agree, "oracle_checked": oracle_checked, "oracle_agree": oracle_agree,
-        "cases_where_directive_removed_something": nontrivial,
-        "of_which_other_diagnostics_remained": leak_detectors,
+        "model_impl_agree": stat["agree"], "oracle_checked": stat["oracle_checked"], "oracle_agree": stat["oracle_agree"],
+        "cases_where_directive_removed_something": stat["nontrivial"],
+        "of_which_other_diagnostics_remained": stat["leak_detectors"],
         "directive_forms": dict(sorted(forms.items())),
         "baseline_rule_histogram": dict(sorted(rule_hist.items(), key=lambda kv: -kv[1])),
         "corpus_cases": len(cc), "corpus_ok": corpus_ok,
